@@ -104,6 +104,7 @@ type frame struct {
 	depth    int
 	path     string
 	defers   []deferRec
+	curPos   token.Pos
 	params   []Val
 	entry    *State
 	bReach   map[*ssa.BasicBlock]string
@@ -149,7 +150,19 @@ func (x *Exec) line(p token.Pos) int {
 	return x.eng.Prog.Fset.Position(p).Line
 }
 
+// siteSuffix names the call site in the root function when the current instruction belongs to an
+// inlined callee, so that obligations raised inside shared helpers are told apart.
+func (x *Exec) siteSuffix() string {
+	if len(x.frames) > 1 {
+		return fmt.Sprintf(".via%d", x.line(x.frames[0].curPos))
+	}
+	return ""
+}
+
 func (x *Exec) addObl(o *Obligation) {
+	if o.Kind == "pre" || o.Kind == "guard" || o.Kind == "safe" {
+		o.Name += x.siteSuffix()
+	}
 	o.Script = x.sc
 	o.ScriptLen = x.sc.Len()
 	o.Func = x.root.String()
@@ -980,6 +993,9 @@ func (f *frame) edge(from, to *ssa.BasicBlock, st *State, reach string) error {
 func (f *frame) execBlock(b *ssa.BasicBlock, st *State, reach string) error {
 	x := f.x
 	for _, in := range b.Instrs {
+		if p := in.Pos(); p.IsValid() {
+			f.curPos = p
+		}
 		switch in := in.(type) {
 		case *ssa.Phi, *ssa.DebugRef:
 			continue
